@@ -408,3 +408,27 @@ def from_read(rm, keep_stereo=False):
     for (i, j), o in rm.bonds.items():
         g.add_bond(i, j, o)
     return g
+
+
+def symbol_family_smiles(rng):
+    """SMILES that make the encoder emit every ring-symbol kind (plain, =, #, and the eight stereo prefixes) and every
+    branch-symbol kind (plain, =, #) with index lengths 1, 2 and 3.  Written directly, so that the ring span / branch
+    length is exact.  Yields (smiles, tag)."""
+    spans = [3, 5, 14, 15, 16, 17, 30, 254, 255, 256, 257, 258, 300]
+    for n in spans:
+        body = "C" * n
+        yield "C1" + body + "C1", "ring:-:%d" % n
+        yield "C=1" + body + "C=1", "ring:=both:%d" % n
+        yield "C=1" + body + "C1", "ring:=open:%d" % n
+        yield "C1" + body + "C=1", "ring:=close:%d" % n
+        yield "C#1" + body + "C#1", "ring:#:%d" % n
+        for lm in ("/", "\\", ""):
+            for rm in ("/", "\\", ""):
+                if not lm and not rm:
+                    continue
+                yield "F/C=C%s1%sC%s1=C/F" % (lm, body, rm), "ring:stereo%s%s:%d" % (lm or "-", rm or "-", n)
+    for n in [1, 2, 15, 16, 17, 18, 255, 256, 257, 258, 300]:
+        for b in ("", "=", "#"):
+            head = {"": "N", "=": "C", "#": "S"}[b]
+            first = {"": "C", "=": "C", "#": "C"}[b]
+            yield "%s(%s%s%s)O" % (head, b, first, "C" * (n - 1)), "branch:%s:%d" % (b or "-", n)
